@@ -100,7 +100,7 @@ PROPS["C03"] = {
 PROPS["C08"] = {
     "technique": "invariant monitor at the public API around both bounds of the supported date range, reusing the C02/C03 oracles",
     "level_text": "Expressions whose selectors straddle 1900 and 9999 are evaluated at instants just before/after both bounds and far outside them (years -262000..262000): state must be closed outside, no interval may start before the requested start or end after min(requested end, 10000-01-01), outside intervals are closed without comments, next_change never returns an instant at or beyond 10000-01-01, the same containment holds when the context carries an interval-size bound (containment only; the approximation is C16's), and next_change from before 1900 equals the first non-closed instant from 1900-01-01T00:00 found by a pointwise scan. Exploration.",
-    "rule": "seeded ASTs with years/dates biased to 1900, 1901, 9998, 9999 and '+' forms, a third biased to long intervals, holiday calendars with dates outside the range x 2 instants each from 8 classes (just before/after 1900 and 10000, far before/after, the year before 1900, the last year) x a window of 1..30 days from the instant. Non-trivial = expression with a selector; distinct by hash of (AST, context, instant).",
+    "rule": "seeded ASTs with years/dates biased to 1900, 1901, 9998, 9999 and '+' forms, a third biased to long intervals, holiday calendars with dates outside the range x 2 instants each from 8 classes (just before/after 1900 and 10000, far before/after, the year before 1900, the last year) x a window of 1..30 days from the instant; plus an EDGE GRID: the ~1400 one-parameter expressions of the C02 grids (day selectors, pairs of boundary-valued spans) and a dozen edge-specific ones: iter_range(1899-12-25T06:30, 1900-01-20) and iter_range(9999-12-20T17:45, 10000-01-15) compared interval by interval with the runs obtained by evaluating every day inside the range (closed and comment-less before 1900-01-01, last interval ending at 10000-01-01, nothing beyond), state closed and next_change None / first in-range change at instants outside (edge_grid_expressions_passed). Non-trivial = expression with a selector; distinct by hash of (AST, context, instant).",
     "assumptions": ["schedule_at is the pointwise truth inside the range (C01)", "state at chrono's very last representable minute is outside the property's stated range and is not probed"],
 }
 
